@@ -26,7 +26,12 @@ Alphabet(i) ==
          \cup {[k |-> "REF", nm |-> N(w), q |-> q] : w \in SymSp, q \in (IF Focus = "case" THEN {NoQ, QName("aa")} ELSE Quals)}
          \cup (IF Focus = "case" THEN {}
                ELSE {[k |-> kk, nm |-> N("sym"), q |-> q] : kk \in {"FORWARD", "PUBLIC", "GLOBAL"}, q \in PPQuals}
-                    \cup {[k |-> "REF", nm |-> NP(<<"aa", "sym">>), q |-> NoQ]})
+                    \cup {[k |-> "REF", nm |-> NP(<<"aa", "sym">>), q |-> NoQ]}
+                    \* argument lists: a further argument of the FORWARD/PUBLIC/GLOBAL statement before it (with one
+                    \* symbol name this is the list that names a symbol again: the later destination counts)
+                    \cup (IF Focus = "scope2"
+                          THEN {[k |-> kk, nm |-> N("sym"), q |-> q, cont |-> TRUE] : kk \in PPKinds, q \in PPQuals}
+                          ELSE {}))
     [] Focus = "temp" ->
          {[k |-> "TDEF", t |-> t] : t \in {"-", "+", "/"}}
          \cup {[k |-> "TREF", t |-> t, c |-> c] : t \in {"-", "+"}, c \in 1..(LOCSYMSIGHT + 1)}
@@ -54,6 +59,7 @@ Next == /\ Len(prog) < MaxLen
              /\ st.k = "SECTION" => Len(s.stk) < MaxDepth
              /\ st.k = "MACBEGIN" => Len(s.mtags) < 2
              /\ st.k = "MACEND" => Len(s.mtags) > 0
+             /\ Cont(st) => prog # <<>> /\ prog[Len(prog)].k = st.k
              /\ prog' = Append(prog, st)
              /\ s' = Step(s, st)
              /\ cs' = cs
